@@ -452,6 +452,11 @@ fn step(st: &mut State, op: &Op, ctx: &Ctx, idx: usize) -> StepOut {
         }
         Op::EmitFile { target } => {
             let path = file_target(ctx, target, idx);
+            if matches!(target, FileTarget::Ok) && idx % 2 == 0 {
+                // the destination may already exist and be LONGER than what is written now (an earlier build's
+                // output): the file must end up holding exactly the emitted bytes
+                let _ = std::fs::write(&path, vec![0xA5u8; 1 << 20]);
+            }
             let r = st.module.emit_wasm_file(&path);
             match r {
                 Ok(()) => {
